@@ -10,6 +10,11 @@ NOT_APPLICABLE = {
 }
 
 TEXT = {
+    'C07': {
+        'technique': 'Verus: each single-game parser proved a left inverse of a spec encoder of the documented reply layout; request bytes and destination port asserted on the ghost send log',
+        'level_text': 'Unbounded proof for Savage 2 (whole query function incl. request byte and port), Frontlines: Fuel of War, JC2-MP player list (loop, reported-vs-listed count) and Mindustry server data (length-prefixed strings, big-endian ints, optional trailing mode name): every field of a well-formed reply lands in the correspondingly named response field.',
+        'level_note': 'UTF-8 transcoding abstract; socket and Valve client contracts assumed here (the latter proved in U-VALVE); The Ship, Battalion 1944 and Eco mappings not yet under contract (listed as not_covered).',
+    },
     'C01': {
         'technique': 'Verus panic-freedom/termination obligations (overflow, index, slice, unwrap preconditions, decreases) on every extracted reply-path function with no precondition on reply bytes',
         'level_text': 'Unbounded proof that each extracted reply-path function returns Ok or Err for every reply: Verus generates and discharges an obligation for every arithmetic operation, cast, index, slice and callee precondition; loops carry decreases (parse loops by remaining bytes, network loops by the finite reply script).',
